@@ -186,3 +186,13 @@ package vm
 //@   ensures[plain-send-pays-per-byte] err == nil && block.Address[0] != 1 && !isReceiveType(block.BlockType) && block.ToAddress[0] != 1 ==> block.TotalPlasma >= len(block.Data) * constants.ABByteDataPlasma + constants.AccountBlockBasePlasma && block.BasePlasma == len(block.Data) * constants.ABByteDataPlasma + constants.AccountBlockBasePlasma
 //@   ensures[total-covers-the-recorded-base] err == nil && block.Address[0] != 1 ==> block.TotalPlasma >= block.BasePlasma
 //@   at-call GetBasePlasmaForAccountBlock assert[base-cost-computed-for-this-block] arg1 == block && arg0 == context
+
+// ======================================================================================================================
+// Property C16 (the node never ends up holding a momentum whose content lists a block that was not verified): every header of
+// the momentum's content is handed to the store together with whatever patch the pool has for it - none is skipped. (A header
+// without a patch is then refused by the store: contract on momentumStore.AddAccountBlockTransaction.)
+//@ func MomentumVM.applyMomentum(vm, pool, momentum) -> (err)
+//@   requires vm != nil && momentum != nil
+//@   ensures-local[every-content-header-is-applied-none-is-skipped] err == nil ==> momentumStore.applied == old(vm.context.applied) + old(len(momentum.Content))
+//@   loop 1
+//@     invariant momentumStore == old(vm.context) && momentumStore.applied == old(vm.context.applied) + rangeindex + 1
